@@ -47,7 +47,7 @@ class A(Adapter):
     run_scale = 1
     mask_mode = "per_agent"
     noop = 0
-    fork_every = 4
+    fork_every = 1  # illegal actions are rare here (a carrier facing a shelf): fork whenever there is one
     has_invalid_effect = True
     has_physical = True
     has_observer = True
@@ -235,6 +235,11 @@ class A(Adapter):
                     ev.append("forward_against_outer_wall")
                 elif carrying and t in shelf0:
                     ev.append("carrying_agent_blocked_by_shelf")
+                    carriers = [j for j, (r2, c2, _, k2) in enumerate(ag0) if (r2, c2) == t and k2]
+                    if carriers:
+                        ev.append("carrying_agent_blocked_by_shelf_another_agent_carries")
+                        if acts[carriers[0]] == FORWARD and ag1[carriers[0]][:2] != ag0[carriers[0]][:2]:
+                            ev.append("blocking_carrier_moves_away_in_the_same_step")
                 else:
                     target[i] = t
                     ev.append("carried_shelf_moved" if carrying else "unloaded_agent_moves_under_shelf" if t in shelf0 else "unloaded_agent_moves_on_floor")
@@ -258,6 +263,18 @@ class A(Adapter):
             ev.append("end_agent_collision")
         if float(np.asarray(ts.reward).sum()) > 0:
             ev.append("shelf_delivered_reward")
+        # state-based: a carrying agent faces the shelf another agent carries (a queue of carriers); and the carrier in front
+        # has the lower index and a free cell ahead (it can legally pull its shelf away in the very step the follower pushes)
+        shelf1 = {(r, c) for r, c, _ in sh1}
+        at1 = {(r, c): j for j, (r, c, _, _) in enumerate(ag1)}
+        for i, (r, c, d, carrying) in enumerate(ag1):
+            t = self._ahead(hw.shape, r, c, d)
+            if carrying and t is not None and t in at1 and ag1[at1[t]][3]:
+                ev.append("state_carrier_queues_behind_carrier")
+                j = at1[t]
+                t2 = self._ahead(hw.shape, ag1[j][0], ag1[j][1], ag1[j][2])
+                if j < i and t2 is not None and t2 not in shelf1 and t2 not in at1:
+                    ev.append("state_front_carrier_lower_index_and_free_to_move")
         if sum(1 for a in acts if a == FORWARD) >= 2:
             ev.append("agents_moving_simultaneously_ge2")
         if sum(1 for a in acts if a != NOOP) >= 2:
@@ -346,14 +363,23 @@ class A(Adapter):
         return out
 
     def policy_complete(self, s, env, rng, legal):
-        """Agent 0 works (fetch a requested shelf, carry it along the aisles to a goal cell, put it back on a free shelf
-        location); the others wait."""
+        """Work: fetch a requested shelf, carry it along the aisles to a goal cell, put it back on a free shelf location.
+        In alternating phases of 40 steps (starting with everybody) either agent 0 works alone (the others wait: no collisions, deliveries happen) or
+        every agent works (carrying agents then queue up behind one another in the aisles on their way to the goal)."""
+        ag = self._agents(s)
+        everybody = (int(s.step_count) // 40) % 2 == 0
+        out = [NOOP] * len(ag)
+        for i in range(len(ag) if everybody else 1):
+            if i == 0 or rng.random() < 0.8:
+                out[i] = self._work_action(i, s, env, rng)
+        return out
+
+    def _work_action(self, i, s, env, rng):
         ag, sh = self._agents(s), self._shelves(s)
         H, W = np.asarray(s.grid).shape[1:]
         hw = np.asarray(env.highways).astype(bool)  # (a client may read the env's public attributes)
-        out = [NOOP] * len(ag)
-        r, c, d, carrying = ag[0]
-        others = {(x, y) for x, y, _, _ in ag[1:]}
+        r, c, d, carrying = ag[i]
+        others = {(x, y) for j, (x, y, _, _) in enumerate(ag) if j != i}
         shelf_at = {(x, y): j for j, (x, y, _) in enumerate(sh)}
         goals = {(H - 1, W // 2 - 1), (H - 1, W // 2)}
         free = np.ones((H, W), bool)
@@ -368,14 +394,12 @@ class A(Adapter):
                 is_goal = lambda rc: rc in goals  # noqa: E731
             else:
                 if not hw[r, c]:
-                    out[0] = TOGGLE  # put it down here
-                    return out
+                    return TOGGLE  # put it down here
                 is_goal = lambda rc: not hw[rc]  # noqa: E731
         else:
             targets = {rc for rc, j in shelf_at.items() if sh[j][2] and rc not in others}
             if (r, c) in targets:
-                out[0] = TOGGLE
-                return out
+                return TOGGLE
             is_goal = lambda rc: rc in targets  # noqa: E731
         prev: Dict[Tuple[int, int], Any] = {(r, c): None}
         dq = deque([(r, c)])
@@ -391,11 +415,10 @@ class A(Adapter):
                     prev[n] = cur
                     dq.append(n)
         if found is None:
-            out[0] = int(rng.choice([LEFT, RIGHT]))
-            return out
+            # boxed in by the others (or queueing behind a carrier): push on straight ahead half of the time
+            return FORWARD if rng.random() < 0.5 else int(rng.choice([LEFT, RIGHT]))
         step = found
         while prev[step] != (r, c):
             step = prev[step]
         want = DIRS.index((step[0] - r, step[1] - c))
-        out[0] = self._turn_towards(d, want)
-        return out
+        return self._turn_towards(d, want)
